@@ -35,3 +35,30 @@ theorem cloneNode_spec' {f : Forest} {n : Nat} {src : HTree} (inv : f.Inv) (hsrc
     exact ⟨a, b, fun hh => by have := inv.below h hh; omega⟩
 
 end XotModel
+
+namespace XotModel
+open HTree Spec
+
+/-- Handle for handle: the clone is the structural copy `copyRoot` numbered from `f.next`. -/
+theorem cloneNode_eq_specClone {f : Forest} {n : Nat} {src : HTree} (inv : f.Inv) (hsrc : f.get? n = some src) :
+    (f.cloneNode n).1 = specClone n f := by
+  obtain ⟨f', h1, h2, h3, h4, _⟩ := cloneNode_spec f inv n src hsrc
+  rw [h1]
+  unfold specClone
+  rw [hsrc]
+  obtain ⟨e1, e2, e3⟩ := h4
+  cases f'
+  cases f
+  simp_all
+
+/-- In a forest without adjacent text nodes the copy is literally the source (handles forgotten). -/
+theorem specCloneContent_normal {f : Forest} {n : Nat} {src : HTree} (norm : f.Normal) (hsrc : f.get? n = some src) :
+    specCloneContent n f = f.content ++ [src.erase] := by
+  unfold specCloneContent
+  rw [hsrc]
+  simp only
+  rcases Bool.eq_false_or_eq_true f.consolidation with hc | hc
+  · rw [expectedClone_strict _ src (valid_findList f.roots src (norm hc) hsrc)]
+  · rw [hc]; rfl
+
+end XotModel
